@@ -14,6 +14,7 @@ import (
 	"strings"
 
 	"github.com/gogpu/naga/ir"
+	"github.com/gogpu/naga/verifhook"
 )
 
 func dumpTypeRes(r ir.TypeResolution) string {
@@ -101,3 +102,54 @@ func cmdC09(c *ctx) {
 }
 
 func init() { commands["c09"] = cmdC09 }
+
+// c09reg — K-tie of Naga.Model.Registry with the real internal/registry.TypeRegistry (verif hook):
+// random request sequences biased towards digit-concatenation collisions between base handles,
+// lengths and strides, names included.
+func cmdC09Reg(c *ctx) {
+	nums := []uint32{0, 1, 2, 11, 12, 21, 22, 112, 121, 211, 16, 6, 4, 41, 164, 1216}
+	pick := func() uint32 { return nums[c.rng.Intn(len(nums))] }
+	for i := 0; i < c.n; i++ {
+		r := verifhook.NewTypeRegistry()
+		var reqs, hs []string
+		k := 2 + c.rng.Intn(14)
+		for j := 0; j < k; j++ {
+			name := ""
+			if c.chance(0.15) {
+				name = c.pick("A", "B", "vec", "array")
+			}
+			var inner ir.TypeInner
+			var rs string
+			switch c.rng.Intn(6) {
+			case 0:
+				kd, w := ir.ScalarKind(c.rng.Intn(4)), uint8([]int{1, 2, 4, 8}[c.rng.Intn(4)])
+				inner, rs = ir.ScalarType{Kind: kd, Width: w}, fmt.Sprintf("scalar %d %d", kd, w)
+			case 1:
+				n, kd, w := 2+c.rng.Intn(3), ir.ScalarKind(c.rng.Intn(4)), uint8(4)
+				inner, rs = ir.VectorType{Size: ir.VectorSize(n), Scalar: ir.ScalarType{Kind: kd, Width: w}}, fmt.Sprintf("vector %d %d %d", n, kd, w)
+			case 2:
+				cc, rr := 2+c.rng.Intn(3), 2+c.rng.Intn(3)
+				inner, rs = ir.MatrixType{Columns: ir.VectorSize(cc), Rows: ir.VectorSize(rr), Scalar: ir.ScalarType{Kind: ir.ScalarFloat, Width: 4}}, fmt.Sprintf("matrix %d %d %d 4", cc, rr, ir.ScalarFloat)
+			case 3, 4:
+				b, st := pick(), pick()
+				if c.chance(0.15) {
+					inner, rs = ir.ArrayType{Base: ir.TypeHandle(b), Stride: st}, fmt.Sprintf("array %d runtime %d", b, st)
+				} else {
+					l := pick()
+					inner, rs = ir.ArrayType{Base: ir.TypeHandle(b), Size: ir.ArraySize{Constant: &l}, Stride: st}, fmt.Sprintf("array %d %d %d", b, l, st)
+				}
+			default:
+				b, sp := pick(), c.rng.Intn(8)
+				inner, rs = ir.PointerType{Base: ir.TypeHandle(b), Space: ir.AddressSpace(sp)}, fmt.Sprintf("pointer %d %d", b, sp)
+			}
+			h := r.GetOrCreate(name, inner)
+			reqs = append(reqs, fmt.Sprintf("(%s %s)", q(name), rs))
+			hs = append(hs, fmt.Sprint(uint32(h)))
+		}
+		c.line("cases.txt", "(reg "+strings.Join(reqs, " ")+")")
+		c.line("impl.txt", fmt.Sprintf("handles [%s] size %d", strings.Join(hs, ", "), r.Count()))
+		c.count("request-sequences")
+	}
+}
+
+func init() { commands["c09reg"] = cmdC09Reg }
